@@ -133,6 +133,7 @@ class World:
             self.pool = elfi.ArrayPool(stores, name='pool', prefix=workdir)
         self.held = 0          # batches 0..held-1 were consumed by some run so far
         self.sampler = None
+        self.stale = False     # the pool was opened from a save older than its data files
 
     def stores_present(self):
         return sorted(k for k in self.pool.stores)
@@ -151,6 +152,10 @@ class World:
                 ops.append(('become', w))
         if self.cfg['pool'] == 'array':
             ops.append(('reopen',))
+            if not self.stale:
+                ops.append(('stale_open',))
+            else:
+                ops.append(('run', 8))       # more batches than the data files of the abandoned pool object hold
         ops += [('refuse_bs',), ('refuse_seed',)]
         if self.cfg['seed'] != 0:
             ops.append(('refuse_seed0',))      # seed 0 is a legal seed that differs from the pool's
@@ -266,6 +271,23 @@ class World:
             self.pool.close()
             self.pool = elfi.ArrayPool.open(name, prefix=prefix)
             self.sampler = None
+        elif k == 'stale_open':
+            # pool restart from a save that is older than the data: save, run two more batches than ever consumed (judged
+            # like any run), flush the data, drop the pool object without closing it, open the pool from the disk
+            if not self.pool.has_context:
+                return None
+            import gc
+            self.pool.save()
+            v = self.apply(('run', self.held + 2), hist_so_far)
+            if v:
+                return v
+            name, prefix = self.pool.name, self.pool.prefix
+            self.pool.flush()
+            self.sampler = None
+            self.pool = None
+            gc.collect()
+            self.pool = elfi.ArrayPool.open(name, prefix=prefix)
+            self.stale = True
         elif k in ('refuse_bs', 'refuse_seed', 'refuse_seed0'):
             if not self.pool.has_context:
                 return None
@@ -284,7 +306,8 @@ class World:
         return None
 
     def state(self):
-        return digest((self.pool_table(), self.variant, self.held, self.sampler is not None and self.cfg.get('same_obj')))
+        return digest((self.pool_table(), self.variant, self.held, self.stale,
+                       self.sampler is not None and self.cfg.get('same_obj')))
 
     def close(self):
         try:
@@ -423,7 +446,7 @@ def run(ctx):
     ctx.rule = ('per configuration (stored node set: every non-empty subset of {simulator, summary, discrepancy}, optionally '
                 'plus all parameters; in-memory | on-disk pool; batch_size; seed; extra requested outputs {summary, simulator} or none; plus branching configurations whose pool also stores the summary of a second branch and whose runs alternate between two target discrepancies) BFS over histories of depth <= %d after the '
                 'filling run over {run with 2/3/5 batches, quantile run, remove a store, replace summary|discrepancy via become '
-                'and drop its stores, close+open (on-disk), refused contexts%s}; canonical-state dedup on (pool content, model '
+                'and drop its stores, close+open (on-disk), open from a save older than the data files (on-disk), refused contexts%s}; canonical-state dedup on (pool content, model '
                 'variant); every history distinct' % (depth, '' if q else ', rerun on the same sampler object'))
     ctx.assumptions += [
         'stored sets of the form in the statement only: a parameter-only store set legitimately changes the random stream',
